@@ -190,6 +190,39 @@ struct Solved {
     halves: Vec<Vec<u32>>, // valid level k-1 subtrees
 }
 fn solve(inst: &Inst) -> Solved {
+    solve_with(inst, true)
+}
+/// May two rows be joined?  With `filter` (the real solver): only when they share no index.
+/// Without: whenever their first indices differ, so that ordering and collision conditions hold
+/// at every level but an index may occur in both subtrees (pseudo-solutions).
+fn joinable(a: &Row, b: &Row, filter: bool) -> bool {
+    if filter { disjoint(&a.idx, &b.idx) } else { a.idx[0] != b.idx[0] }
+}
+fn has_repeat(idx: &[u32]) -> bool {
+    let mut s = idx.to_vec();
+    s.sort();
+    s.windows(2).any(|w| w[0] == w[1])
+}
+/// For every level and aligned block whose halves share an index: is `left.last < right.first`?
+/// Returns (number of sharing blocks, number of those with left.last < right.first).
+fn sharing_blocks(idx: &[u32]) -> (usize, usize) {
+    let (mut sh, mut lt) = (0, 0);
+    let mut sz = 2;
+    while sz <= idx.len() {
+        for blk in idx.chunks(sz) {
+            let (l, r) = blk.split_at(sz / 2);
+            if !disjoint(l, r) {
+                sh += 1;
+                if l[l.len() - 1] < r[0] {
+                    lt += 1;
+                }
+            }
+        }
+        sz *= 2;
+    }
+    (sh, lt)
+}
+fn solve_with(inst: &Inst, filter: bool) -> Solved {
     let (n, k, c) = (inst.n, inst.k, inst.c());
     assert!(n <= 128);
     let mut rows: Vec<Row> = (0..(1u32 << (c + 1)))
@@ -215,7 +248,7 @@ fn solve(inst: &Inst) -> Solved {
             let hi = j.min(i + 8);
             for a in i..hi {
                 for b in a + 1..hi {
-                    if disjoint(&rows[a].idx, &rows[b].idx) {
+                    if joinable(&rows[a], &rows[b], filter) {
                         next.push(join(&rows[a], &rows[b], (rows[a].v ^ rows[b].v) & mask));
                     }
                 }
@@ -240,9 +273,14 @@ fn solve(inst: &Inst) -> Solved {
         let hi = j.min(i + 8);
         for a in i..hi {
             for b in a + 1..hi {
-                if disjoint(&rows[a].idx, &rows[b].idx) {
+                if joinable(&rows[a], &rows[b], filter) {
                     let r = join(&rows[a], &rows[b], rows[a].v ^ rows[b].v);
-                    if r.v == 0 {
+                    if !filter {
+                        // pseudo-solutions: total XOR zero and some index used more than once
+                        if r.v == 0 && has_repeat(&r.idx) {
+                            out.solutions.push(r.idx);
+                        }
+                    } else if r.v == 0 {
                         out.solutions.push(r.idx);
                     } else if out.near.len() < 4 {
                         out.near.push(r.idx);
@@ -457,6 +495,59 @@ fn main() {
             cx.run("zeros", &inst, &vec![0u8; l]);
             cx.run("ones", &inst, &vec![0xffu8; l]);
         }
+    }
+
+    // ---- pseudo-solutions with repeated indices ------------------------------------------------
+    // The solver without its distinctness filter: collision and ordering hold at every level and the
+    // total XOR is zero, but some index occurs in both halves of a block (its two copies cancel).
+    // Only `distinct_indices` rejects these.  Kept apart: those where in every sharing block the left
+    // half ends below the right half's first index (a subtree's first index is its minimum, its last
+    // is not its maximum).
+    for (n, k, tries) in [(32u32, 3u32, if big { 12000 } else { 5000 }), (40, 4, if big { 5000 } else { 1500 }), (48, 5, if big { 2500 } else { 700 })] {
+        let want = if big { 12 } else { 5 };
+        let (mut n_lt, mut n_other, mut tried) = (0usize, 0usize, 0u64);
+        let input = rng.bytes(3);
+        for t in 0..tries as u32 {
+            if n_lt >= want && n_other >= want {
+                break;
+            }
+            tried += 1;
+            let inst = Inst { n, k, input: input.clone(), nonce: t.to_le_bytes().to_vec() };
+            let w = inst.c() + 1;
+            for idx in solve_with(&inst, false).solutions {
+                let (sh, lt) = sharing_blocks(&idx);
+                let all_lt = sh > 0 && sh == lt;
+                if all_lt && n_lt < 2 * want {
+                    n_lt += 1;
+                    cx.run("pseudo_dup_left_ends_below_right", &inst, &encode(w, &idx));
+                    // hand-shaped variants: move the repeated index to the end of the left half / make
+                    // the left half end above the right half's first index
+                    let h = idx.len() / 2;
+                    let mut m = idx.clone();
+                    m.swap(h - 1, h - 2);
+                    cx.run("pseudo_dup_variant", &inst, &encode(w, &m));
+                    let mut m = idx.clone();
+                    m.swap(h + 1, idx.len() - 1);
+                    cx.run("pseudo_dup_variant", &inst, &encode(w, &m));
+                } else if !all_lt && n_other < want {
+                    n_other += 1;
+                    cx.run("pseudo_dup", &inst, &encode(w, &idx));
+                }
+            }
+        }
+        *cx.st.params.entry(format!("pseudo {},{} instances tried", n, k)).or_default() += tried;
+        *cx.st.solutions.entry(format!("pseudo {},{} left_ends_below", n, k)).or_default() += n_lt as u64;
+        *cx.st.solutions.entry(format!("pseudo {},{} other", n, k)).or_default() += n_other as u64;
+    }
+    // hand-shaped lists of the same form [.., x, .., l | f, .., x, ..] with l < f <= x (no hash conditions)
+    for (n, k) in [(32u32, 3u32), (40, 4), (48, 5)] {
+        let inst = Inst { n, k, input: rng.bytes(3), nonce: rng.bytes(4) };
+        let w = inst.c() + 1;
+        let sz = 1usize << k;
+        let mut m: Vec<u32> = (0..sz as u32).map(|i| 2 * i + 1).collect(); // increasing, distinct
+        let x = m[sz - 1];
+        m[1] = x; // x inside the left half, left half still ends below the right half's first index
+        cx.run("shaped_dup", &inst, &encode(w, &m));
     }
 
     // ---- vectors from the Zcash test suite at the production and the widest parameters -------
